@@ -1,6 +1,19 @@
-"""C03: decoded genotypes follow nearest-mutation inheritance and missing-data rules."""
+"""C03: decoded genotypes follow nearest-mutation inheritance and missing-data rules (C decoder by llsym; the Python
+genotype_matrix assembly by CrossHair)."""
+import os
+import sys
+
+HERE = os.path.dirname(os.path.dirname(os.path.abspath(__file__)))
+sys.path.insert(0, os.path.join(HERE, 'engine'))
 
 H = 'c03_genotypes.c'
+
+
+def conds(tier):
+    return [dict(module='c03_props', function='genotype_matrix_has_every_site', timeout=120,
+                 encodes=['tskit.trees.TreeSequence.genotype_matrix'],
+                 what='genotype_matrix: one row per site (mutation-free sites included, with their missing data), for the requested '
+                      'samples and isolated_as_missing; 3 sites, which of them carry mutations symbolic')]
 
 
 def jobs(tier):
@@ -35,7 +48,7 @@ BOUNDS = {
              'isolated_as_missing on/off; decode orders (0,1,0) and (1,0) on one Variant; restricted_copy; (c) the fixed table (one site, 2 mutations) with four user allele lists (reordered, missing a derived allele, missing the ancestral allele, with an unused allele): genotypes index the user list, a missing allele is TSK_ERR_ALLELE_NOT_FOUND',
     'thorough': 'plus 4 nodes / 3 edges and 3 mutations (time-boxed)',
 }
-OUTSIDE = ['genotype_matrix / haplotypes / alignments assembly in Python (numpy)', 'user allele lists other than the four enumerated ones',
+OUTSIDE = ['haplotypes / alignments assembly in Python (numpy); of genotype_matrix only the row assembly over a stand-in Variant', 'user allele lists other than the four enumerated ones',
            'Variant.counts()/frequencies()', 'more than 3 alleles']
 ASSUMPTIONS = ['mutation parents are those computed by tsk_table_collection_compute_mutation_parents (checked in C07)']
 MANIFEST = dict(
@@ -43,4 +56,10 @@ MANIFEST = dict(
          'traversal paths, internal tree seeks in any order) against a naive walk-up oracle over the input rows, allele '
          'strings compared.',
     note='Bounded sizes; trusts clang IR, engine (native replay of sampled paths), z3.',
-    technique='symbolic execution of LLVM IR + SMT (z3), bounded, differential against a naive oracle')
+    technique='symbolic execution of LLVM IR + SMT (z3), bounded, differential against a naive oracle; CrossHair on the Python genotype_matrix assembly')
+
+
+def run(pid, tier, seed, only=None):
+    import mixed
+    return mixed.run_mixed(pid, tier, seed, only, jobs(tier), conds(tier), BOUNDS[tier], OUTSIDE, ASSUMPTIONS,
+                           ['stand-in Variant with fixed per-site genotypes; fake tree sequence (num_sites, num_samples, mutations_site)'])
